@@ -486,6 +486,13 @@ func genLifecycle(r *Rand) Input {
 		if r.Chance(9, 10) {
 			g.add(Op{K: "fire", Job: "prop", Num: cur})
 		}
+		if h.PropDelayMs > 0 && r.Chance(1, 3) {
+			// the early-proposal job is still waiting for the head header (or was left behind) when the
+			// slot's proposal job has already run on its own timer: bringing the proposal forward now
+			// must find nothing to run.  An early job that ran above is gone and this is a no-op.
+			g.tag("early-after-proposal-ran")
+			g.add(Op{K: "fire", Job: "early", Num: cur, HeadSlot: cur - 1})
+		}
 		if r.Chance(9, 10) {
 			g.add(Op{K: "fire", Job: "att", Num: cur})
 		}
